@@ -36,3 +36,6 @@ pub use rowan::{TextRange, TextSize};
 // mod display;
 
 mod utils;
+
+#[cfg(oq3_verif)]
+pub mod verif;
